@@ -9,6 +9,7 @@ package fsim
 // matches; on every exit of finalize the temp file is cleaned up (C17) ----------------------
 
 //@ func fsim.Download.finalize
+//@   params d respond
 //@   props C17 C10(sweep)
 //@   sweep bounds,panic,make
 //@   requires @complete d.written >= d.length
@@ -20,11 +21,13 @@ package fsim
 //@   ensures @cleanup wasreset(d) == True()
 
 //@ func fsim.Download.reset
+//@   params d
 //@   nopaths
 //@   modifies d.temp
 //@   ghostset wasreset(d) := True()
 
 //@ func fsim.Download.receive
+//@   params d messageName messageBody respond
 //@   props C17 C10(sweep)
 //@   sweep bounds,panic,make
 //@   callsites MultiWriter 1
@@ -38,11 +41,13 @@ package fsim
 //@   callassert finalize#1: @complete d.written >= d.length
 
 //@ func fsim.Download.createTemp
+//@   params d
 //@   nopaths
 //@   modifies d.temp
 
 // ---- upload (owner receives a file) ----------------------------------------------------------------
 //@ func fsim.UploadRequest.finalize
+//@   params u
 //@   props C17 C10(sweep)
 //@   sweep bounds,panic,make
 //@   requires @hash u.hash != nil && u.temp != nil && !implements(u.hash, "fdo.fallibleHash")
@@ -52,6 +57,7 @@ package fsim
 
 // ---- wget (device fetches a URL) -----------------------------------------------------------------
 //@ func fsim.Wget.download
+//@   params d ctx url
 //@   props C17 C10(sweep)
 //@   sweep bounds,panic,make
 //@   callsites rename 1
@@ -61,6 +67,7 @@ package fsim
 // an announced digest is only replaced by another "sha-384" message: a "name"
 // message leaves it alone (the owner sends sha-384 before name)
 //@ func fsim.Wget.receive
+//@   params d ctx messageName messageBody
 //@   props C17 C10(sweep)
 //@   sweep bounds,panic,make
 //@   ensures @keepdigest messageName == "name" ==> u(d.sha384) == old(u(d.sha384))
@@ -69,6 +76,7 @@ package fsim
 // ---- upload (device sends a file): every data message and the digest cover exactly
 // the bytes the latest Read delivered -------------------------------------------------------
 //@ func fsim.Upload.upload
+//@   params u name respond yield
 //@   props C17 C10(sweep)
 //@   sweep bounds,panic,make
 //@   callsites Read 1
